@@ -43,6 +43,27 @@ def _repo_root() -> Path:
 
 REPO = _repo_root()
 
+
+def _private_lean_workspace() -> None:
+    """A run against a scratch tree (PYTHONPATH=<worktree>: seeded changes, experiments) regenerates the
+    translated tables and rebuilds the models from THAT tree. It must not do so inside the shared project
+    (another check running at the same time against /repo would build against the wrong tables), so it
+    works in a private copy of the Lean project, removed at exit."""
+    global LEAN
+    if REPO.resolve() == Path("/repo") or os.environ.get("VERIF_SHARED_LEAN") == "1":
+        return
+    import atexit
+    import shutil
+    import tempfile
+    private = Path(tempfile.mkdtemp(prefix="verif-lean-")) / "lean"
+    shutil.copytree(LEAN, private, symlinks=True, ignore=shutil.ignore_patterns(".lock"))
+    LEAN = private
+    pid = os.getpid()
+    atexit.register(lambda: os.getpid() == pid and shutil.rmtree(private.parent, ignore_errors=True))
+
+
+_private_lean_workspace()
+
 ALLOWED_AXIOMS = {"propext", "Classical.choice", "Quot.sound"}
 FORBIDDEN = re.compile(
     r"\bsorry\b|\badmit\b|^\s*axiom\s|native_decide|bv_decide|implemented_by|\bunsafe\s|maxHeartbeats\s+0\b",
